@@ -364,6 +364,14 @@ class _Expr(ast.NodeTransformer):
         if _is_negative(node.test):
             node.test = neg(node.test)
             node.body, node.orelse = node.orelse, node.body
+        # D[K] if K in D else V   ->   D.get(K, V)       (the statement form of this idiom is rewritten the same way)
+        t = node.test
+        if isinstance(t, ast.Compare) and len(t.ops) == 1 and isinstance(t.ops[0], ast.In):
+            K, D = t.left, t.comparators[0]
+            v = node.body
+            if isinstance(v, ast.Subscript) and dump(v.value) == dump(D) and dump(v.slice) == dump(K) and is_pure(K) and is_pure(D) and \
+                    isinstance(node.orelse, (ast.Name, ast.Constant)):
+                return at(ast.Call(func=ast.Attribute(value=D, attr='get', ctx=ast.Load()), args=[K, node.orelse], keywords=[]), node)
         return node
 
     def visit_BinOp(self, node):
@@ -1279,6 +1287,49 @@ class FunctionNormalizer(object):
                 return False
         return True
 
+    def _immutable_local(self, name):
+        '''every value ever bound to the local `name` is a str / number / tuple by construction (so `name += e` re-binds, never mutates)'''
+        def immut(e, depth=0):
+            if isinstance(e, ast.Constant) and isinstance(e.value, (str, int, float, bool, bytes)):
+                return True
+            if isinstance(e, ast.JoinedStr):
+                return True
+            if isinstance(e, ast.Tuple):
+                return True
+            if isinstance(e, ast.BinOp) and isinstance(e.op, ast.Mod) and isinstance(e.left, ast.Constant) and isinstance(e.left.value, str):
+                return True
+            if isinstance(e, ast.BinOp) and isinstance(e.op, (ast.Add, ast.Sub, ast.Mult)):
+                return immut(e.left, depth + 1) or immut(e.right, depth + 1)       # str + x is a str or raises; int + x likewise
+            if isinstance(e, ast.Call) and isinstance(e.func, ast.Name) and e.func.id in ('str', 'int', 'float', 'len', 'repr', 'bool', 'tuple', 'sum'):
+                return True
+            if isinstance(e, ast.Call) and isinstance(e.func, ast.Attribute) and isinstance(e.func.value, ast.Constant) and isinstance(e.func.value.value, str):
+                return True        # ', '.join(..) / '..'.format(..)
+            if isinstance(e, ast.Name) and e.id == name:
+                return True
+            return False
+        seen = False
+        for n in ast.walk(self.fn):
+            if isinstance(n, ast.Assign):
+                for t in n.targets:
+                    if isinstance(t, ast.Name) and t.id == name:
+                        seen = True
+                        if not immut(n.value):
+                            return False
+                    elif any(isinstance(x, ast.Name) and x.id == name and isinstance(x.ctx, ast.Store) for x in ast.walk(t)):
+                        return False
+            elif isinstance(n, ast.AugAssign) and isinstance(n.target, ast.Name) and n.target.id == name:
+                pass
+            elif isinstance(n, (ast.For, ast.comprehension)) and any(isinstance(x, ast.Name) and x.id == name for x in ast.walk(n.target)):
+                return False
+            elif isinstance(n, (ast.With, ast.ExceptHandler, ast.NamedExpr, ast.Import, ast.ImportFrom)):
+                if isinstance(n, ast.NamedExpr) and n.target.id == name:
+                    return False
+                if isinstance(n, ast.ExceptHandler) and n.name == name:
+                    return False
+                if isinstance(n, ast.With) and any(i_.optional_vars is not None and any(isinstance(x, ast.Name) and x.id == name for x in ast.walk(i_.optional_vars)) for i_ in n.items):
+                    return False
+        return seen
+
     def pass_simple(self):
         for owner, fld, lst in list(walk_lists(self.fn)):
             i = 0
@@ -1301,6 +1352,32 @@ class FunctionNormalizer(object):
                         k, t = keep[0]
                         lst[i] = at(ast.Assign(targets=[t], value=ast.Subscript(value=st.value, slice=ast.Constant(value=k), ctx=ast.Load())), st)
                         continue
+                # if c: x = a  else: x = b   ->   x = a if c else b     (same evaluation order; one spelling for both)
+                if isinstance(st, ast.If) and len(st.body) == 1 and len(st.orelse) == 1 and \
+                        all(isinstance(x, ast.Assign) and len(x.targets) == 1 and isinstance(x.targets[0], ast.Name) for x in (st.body[0], st.orelse[0])) and \
+                        st.body[0].targets[0].id == st.orelse[0].targets[0].id and self._is_local(st.body[0].targets[0].id) and \
+                        not any(isinstance(n, (ast.Yield, ast.YieldFrom, ast.Await, ast.NamedExpr)) for x in (st.body[0], st.orelse[0]) for n in ast.walk(x)):
+                    nm = st.body[0].targets[0].id
+                    lst[i] = at(ast.Assign(targets=[ast.Name(id=nm, ctx=ast.Store())],
+                                           value=ast.IfExp(test=st.test, body=st.body[0].value, orelse=st.orelse[0].value)), st)
+                    continue
+                # T[k] = a if c else b   ->   if c: T[k] = a  else: T[k] = b     (the value is evaluated before the target either way)
+                if isinstance(st, ast.Assign) and len(st.targets) == 1 and isinstance(st.targets[0], (ast.Subscript, ast.Attribute)) and \
+                        isinstance(st.value, ast.IfExp) and is_pure(st.targets[0]):
+                    lst[i] = at(ast.If(test=st.value.test,
+                                       body=[ast.Assign(targets=[clone(st.targets[0])], value=st.value.body)],
+                                       orelse=[ast.Assign(targets=[clone(st.targets[0])], value=st.value.orelse)]), st)
+                    continue
+                # return a if c else b   ->   if c: return a  else: return b
+                if isinstance(st, ast.Return) and isinstance(st.value, ast.IfExp):
+                    lst[i] = at(ast.If(test=st.value.test, body=[ast.Return(value=st.value.body)], orelse=[ast.Return(value=st.value.orelse)]), st)
+                    continue
+                # s += e  ->  s = s + e   for a local that holds an immutable value (str / number / tuple): no aliasing is possible
+                if isinstance(st, ast.AugAssign) and isinstance(st.target, ast.Name) and isinstance(st.op, (ast.Add, ast.Sub, ast.Mult)) \
+                        and self._is_local(st.target.id) and self._immutable_local(st.target.id):
+                    lst[i] = at(ast.Assign(targets=[ast.Name(id=st.target.id, ctx=ast.Store())],
+                                           value=ast.BinOp(left=ast.Name(id=st.target.id, ctx=ast.Load()), op=st.op, right=st.value)), st)
+                    continue
                 # x |= <bool>  ->  x = x | <bool>
                 if isinstance(st, ast.AugAssign) and isinstance(st.target, ast.Name) and isinstance(st.op, (ast.BitOr, ast.BitAnd)) \
                         and _looks_boolean(st.value) and self._is_local(st.target.id):
@@ -1585,6 +1662,8 @@ class FunctionNormalizer(object):
                 x = names.pop()
                 if not self._is_local(x):
                     continue
+                if all(len(l) == 1 for l in leaves):
+                    continue        # becomes one conditional-expression assignment (pass_simple)
                 occ = self._all_names(x)
                 loads = [n for n in occ if isinstance(n.ctx, ast.Load)]
                 stores = [n for n in occ if isinstance(n.ctx, (ast.Store, ast.Del))]
@@ -1733,11 +1812,27 @@ class FunctionNormalizer(object):
         depends_on_content = any(isinstance(n, (ast.Subscript, ast.Call)) for n in ast.walk(value))
         if reads_state(value):
             # nothing with an effect on what the value reads may run between the definition and the uses
-            roots = {n.id for n in ast.walk(value) if isinstance(n, ast.Name) and isinstance(n.ctx, ast.Load)} - PURE_FUNCS - STATELESS_FUNCS
+            roots = _state_roots(value)
             private = self._private_containers(roots, value)
             mutators = ('append', 'add', 'remove', 'pop', 'insert', 'extend', 'update', 'clear', 'discard', 'setdefault', 'popitem', 'sort', 'reverse')
+            # what a comprehension evaluates after its outermost iterable runs after a use inside that iterable
+            after_use = set()
+            if span:
+                for c_ in ast.walk(span[-1]):
+                    if isinstance(c_, (ast.ListComp, ast.SetComp, ast.DictComp, ast.GeneratorExp)) and \
+                            any(isinstance(x, ast.Name) and x.id == name for x in ast.walk(c_.generators[0].iter)):
+                        inner_uses = [x for x in ast.walk(c_) if isinstance(x, ast.Name) and x.id == name]
+                        first_uses = [x for x in ast.walk(c_.generators[0].iter) if isinstance(x, ast.Name) and x.id == name]
+                        all_uses = [x for x in ast.walk(span[-1]) if isinstance(x, ast.Name) and x.id == name]
+                        if len(inner_uses) == len(first_uses) == len(all_uses):
+                            parts = [c_.generators[0].target] + list(c_.generators[0].ifs) + list(c_.generators[1:]) + \
+                                ([c_.key, c_.value] if isinstance(c_, ast.DictComp) else [c_.elt])
+                            for part in parts:
+                                after_use |= {id(x) for x in ast.walk(part)}
             for k, s in enumerate(span):
                 for n in ast.walk(s):
+                    if id(n) in after_use and k == len(span) - 1:
+                        continue
                     if isinstance(n, (ast.Yield, ast.YieldFrom)):
                         return True
                     if isinstance(n, (ast.Attribute, ast.Subscript)) and isinstance(n.ctx, (ast.Store, ast.Del)):
@@ -2297,17 +2392,51 @@ def _has_free_loop_jump(stmts):
     return rec(stmts, 0)
 
 
+def _state_roots(value):
+    '''the names whose STATE the (pure) value reads through a call: the receiver of a state-reading method call
+    (d.get(k, v) reads d; k and v are only passed along / hashed) and every name inside the arguments of a state-reading
+    function call (len(x), sorted(x), getattr(x, n)); names that only occur elsewhere are used as plain values'''
+    roots = set()
+    all_names = {n.id for n in ast.walk(value) if isinstance(n, ast.Name) and isinstance(n.ctx, ast.Load)} - PURE_FUNCS - STATELESS_FUNCS
+    for n in ast.walk(value):
+        if not isinstance(n, ast.Call):
+            continue
+        f = n.func
+        if isinstance(f, ast.Name) and f.id in STATELESS_FUNCS:
+            continue
+        if isinstance(f, ast.Attribute) and f.attr in STATELESS_METHODS:
+            continue
+        if isinstance(f, ast.Lambda):
+            continue
+        if isinstance(f, ast.Attribute) and f.attr in ('get', 'keys', 'values', 'items', 'copy', 'issubset', 'issuperset', 'union', 'difference', 'intersection'):
+            roots |= {x.id for x in ast.walk(f.value) if isinstance(x, ast.Name)}
+            if f.attr in ('issubset', 'issuperset', 'union', 'difference', 'intersection'):
+                roots |= {x.id for a in n.args for x in ast.walk(a) if isinstance(x, ast.Name)}
+            continue
+        return all_names       # anything else: every name may matter
+    return roots & all_names
+
+
 def _inside_deferred(root, node, comps=True):
     '''is node inside a lambda / nested def (/ comprehension) below root (evaluated later or repeatedly)?'''
     kinds = (ast.Lambda, ast.FunctionDef, ast.AsyncFunctionDef)
     if comps:
         kinds = kinds + (ast.ListComp, ast.SetComp, ast.DictComp, ast.GeneratorExp)
 
+    compkinds = (ast.ListComp, ast.SetComp, ast.DictComp, ast.GeneratorExp)
+
     def rec(cur, deferred):
         if cur is node:
             return deferred
         for c in ast.iter_child_nodes(cur):
             d = deferred or (isinstance(cur, kinds) and cur is not root)
+            if isinstance(cur, compkinds) and c is cur.generators[0]:
+                # the outermost iterable of a comprehension is evaluated at once, exactly once, in the enclosing scope
+                for c2 in ast.iter_child_nodes(c):
+                    r = rec(c2, deferred if c2 is c.iter else d)
+                    if r is not None:
+                        return r
+                continue
             r = rec(c, d)
             if r is not None:
                 return r
